@@ -16,9 +16,9 @@ def run_models(ctx):
     # 2. tensor-level arithmetic: the networks denote the dense algebra
     if quick:
         ctx.model_check("MC_C09Algebra", "MC_alg_quick.cfg", name="mps-algebra L=2 depth 2", require_actions=ALG_ACTIONS, timeout=600)
-        ctx.model_check("MC_C09Algebra", "MC_alg_quick3.cfg", name="mps-algebra L=3 depth 1", require_actions=ALG_ACTIONS, timeout=600)
+        ctx.model_check("MC_C09Algebra", "MC_quick.cfg", name="mps-algebra L=3 depth 1", require_actions=ALG_ACTIONS, timeout=600)
     else:
-        ctx.model_check("MC_C09Algebra", "MC_alg_thorough.cfg", name="mps-algebra L=3 depth 2", require_actions=ALG_ACTIONS, timeout=2400)
+        ctx.model_check("MC_C09Algebra", "MC_thorough.cfg", name="mps-algebra L=3 depth 2", require_actions=ALG_ACTIONS, timeout=2400)
         ctx.model_check("MC_C09Algebra", "MC_alg_gens.cfg", name="mps-algebra all generators L=2 depth 1",
                         require_actions=ALG_ACTIONS, timeout=1200)
         # the chain contraction used by the invariants is LTensor!Denote of the labelled network
